@@ -7,6 +7,7 @@ package c08
 import (
 	"bytes"
 	"encoding"
+	"encoding/json"
 	"fmt"
 	"math/big"
 	"reflect"
@@ -34,6 +35,36 @@ type moEntry struct {
 	Eq func(a, b mo) bool
 	// Class names a value class with a triaged defect of its own (as in the zoo)
 	Class func(variant int) string
+	// ID is the case id suffix when it differs from Name (several entry-point pairs of one type)
+	ID string
+	// Mar / Unmar name the entry-point pair in signatures (default MarshalBinary / UnmarshalBinary)
+	Mar, Unmar string
+	// Leak: as in the zoo, a triaged receiver-state defect exposed by reading variant v into a receiver that
+	// held variant w
+	Leak func(v, w int) string
+	// MaxMutants bounds the number of field corruptions tried per variant in the quick tier (0 = all)
+	MaxMutants int
+}
+
+func (e moEntry) id() string {
+	if e.ID != "" {
+		return e.ID
+	}
+	return e.Name
+}
+
+func (e moEntry) mar() string {
+	if e.Mar != "" {
+		return e.Mar
+	}
+	return "MarshalBinary"
+}
+
+func (e moEntry) unmar() string {
+	if e.Unmar != "" {
+		return e.Unmar
+	}
+	return "UnmarshalBinary"
 }
 
 func bigScale(bits uint, mant float64, exp int) *big.Float {
@@ -41,7 +72,7 @@ func bigScale(bits uint, mant float64, exp int) *big.Float {
 }
 
 var moEntries = []moEntry{
-	{Name: "bgv.Parameters", Variants: 3, Make: func(r *eng.Rand, v int) (mo, error) {
+	{Name: "bgv.Parameters", Variants: 3, MaxMutants: 60, Make: func(r *eng.Rand, v int) (mo, error) {
 		lits := []bgv.ParametersLiteral{
 			{LogN: 6, LogQ: []int{40, 30}, LogP: []int{41}, PlaintextModulus: 65537},
 			{LogN: 5, LogQ: []int{50}, PlaintextModulus: 257},
@@ -50,7 +81,7 @@ var moEntries = []moEntry{
 		p, err := bgv.NewParametersFromLiteral(lits[v])
 		return &p, err
 	}, Eq: func(a, b mo) bool { return a.(*bgv.Parameters).Equal(b.(*bgv.Parameters)) }},
-	{Name: "ckks.Parameters", Variants: 3, Make: func(r *eng.Rand, v int) (mo, error) {
+	{Name: "ckks.Parameters", Variants: 3, MaxMutants: 60, Make: func(r *eng.Rand, v int) (mo, error) {
 		lits := []ckks.ParametersLiteral{
 			{LogN: 6, LogQ: []int{50, 40}, LogP: []int{51}, LogDefaultScale: 40},
 			{LogN: 5, LogQ: []int{55, 45, 45}, LogDefaultScale: 90, RingType: ring.ConjugateInvariant},
@@ -132,7 +163,7 @@ var moEntries = []moEntry{
 
 func moFresh(v mo) mo { return reflect.New(reflect.TypeOf(v).Elem()).Interface().(mo) }
 
-func runMarshalOnly(c *eng.Ctx, e moEntry) {
+func runMarshalOnly(c *eng.Ctx, e moEntry, tier string) {
 	rnd := c.Rand()
 	T := e.Name
 	eq := e.Eq
@@ -149,7 +180,7 @@ func runMarshalOnly(c *eng.Ctx, e moEntry) {
 		objs = append(objs, o)
 	}
 	for v, o := range objs {
-		sig := "C08|" + T + ".MarshalBinary"
+		sig := "C08|" + T + "." + e.mar()
 		var data []byte
 		var err error
 		if !c.Try(sig, func() { data, err = o.MarshalBinary() }) {
@@ -159,10 +190,11 @@ func runMarshalOnly(c *eng.Ctx, e moEntry) {
 			c.Violate(sig+"|error", fmt.Sprintf("variant %d: %v", v, err), nil)
 			continue
 		}
-		c.Distinct(fmt.Sprintf("marshalonly/%s/%d", T, v), true)
+		c.Distinct(fmt.Sprintf("marshalonly/%s/%d", e.id(), v), true)
 		// receivers: fresh, and one that already holds every other variant
 		rcvs := []mo{moFresh(o)}
 		names := []string{"fresh"}
+		held := []int{-1}
 		for w, other := range objs {
 			if w == v {
 				continue
@@ -172,12 +204,17 @@ func runMarshalOnly(c *eng.Ctx, e moEntry) {
 			if e2 == nil && r.UnmarshalBinary(d2) == nil {
 				rcvs = append(rcvs, r)
 				names = append(names, fmt.Sprintf("held-variant-%d", w))
+				held = append(held, w)
 			}
 		}
 		for i, r := range rcvs {
-			usig := "C08|" + T + ".UnmarshalBinary|" + map[bool]string{true: "fresh-receiver", false: "dirty-receiver"}[i == 0]
+			usig := "C08|" + T + "." + e.unmar() + "|" + map[bool]string{true: "fresh-receiver", false: "dirty-receiver"}[i == 0]
 			if e.Class != nil && e.Class(v) != "" {
 				usig = "C08|" + T + "|" + e.Class(v)
+			}
+			if e.Leak != nil && held[i] >= 0 && e.Leak(v, held[i]) != "" && (e.Class == nil || e.Class(v) == "") {
+				usig = "C08|" + T + "." + e.unmar() + "|" + e.Leak(v, held[i])
+				c.Count("optional_field_absent_into_receiver_holding_it", 1)
 			}
 			var uerr error
 			if !c.Try(usig, func() { uerr = r.UnmarshalBinary(append([]byte(nil), data...)) }) {
@@ -196,18 +233,112 @@ func runMarshalOnly(c *eng.Ctx, e moEntry) {
 				return fmt.Sprintf("variant %d receiver %s: decoded %+v, original %+v", v, names[i], r, o)
 			})
 		}
-		// truncations must give errors, not panics and not silently accepted objects equal to nothing
-		for _, cut := range []int{0, 1, len(data) / 2, len(data) - 1} {
+		// the encoding/json entry points of the type, when it has them
+		if jm, isJ := o.(json.Marshaler); isJ && (e.Class == nil || e.Class(v) == "") {
+			jsig := "C08|" + T + ".UnmarshalJSON|fresh-receiver"
+			var jb []byte
+			var jerr error
+			if c.Try("C08|"+T+".MarshalJSON", func() { jb, jerr = jm.MarshalJSON() }) && jerr == nil {
+				jr := moFresh(o)
+				if c.Try(jsig, func() { jerr = json.Unmarshal(jb, jr) }) {
+					c.Eval(1)
+					if jerr != nil {
+						c.Violate(jsig+"|error-on-valid-encoding", fmt.Sprintf("variant %d: %v", v, jerr), nil)
+					} else {
+						again, aerr := json.Marshal(jr)
+						c.Check(aerr == nil && bytes.Equal(again, jb) && eq(o, jr), jsig+"|value-differs", func() string {
+							return fmt.Sprintf("variant %d: json.Marshal -> json.Unmarshal -> json.Marshal: %d bytes -> %d bytes, first difference at %d (%v)", v, len(jb), len(again), firstDiff(again, jb), aerr)
+						})
+						c.Count("json_entry_point_round_trips", 1)
+					}
+				}
+			}
+		}
+		// truncations must give errors, not panics and not silently accepted objects equal to nothing: every
+		// prefix (the encodings are small), into fresh receivers and, for a few, into a receiver holding a value
+		var cuts []int
+		if len(data) <= 8192 {
+			for i := 0; i < len(data); i++ {
+				cuts = append(cuts, i)
+			}
+			c.Count("exhaustive_subspaces", 1)
+		} else {
+			cuts = []int{0, 1, len(data) / 2, len(data) - 1}
+			for i := 0; i < 2000; i++ {
+				cuts = append(cuts, rnd.N(len(data)))
+			}
+		}
+		for _, cut := range cuts {
 			if cut < 0 || cut >= len(data) {
 				continue
 			}
 			r := moFresh(o)
+			if cut == len(data)/3 || cut == len(data)-1 || cut == 1 {
+				r.UnmarshalBinary(append([]byte(nil), data...)) // a receiver that holds a value
+			}
 			var terr error
-			tsig := "C08|" + T + ".UnmarshalBinary|truncated"
+			tsig := "C08|" + T + "." + e.unmar() + "|truncated"
 			if !c.Try(tsig, func() { terr = r.UnmarshalBinary(append([]byte(nil), data[:cut]...)) }) {
 				continue
 			}
-			c.Check(terr != nil, tsig+"|accepted", func() string { return fmt.Sprintf("variant %d: %d of %d bytes accepted without error", v, cut, len(data)) })
+			c.Check(terr != nil, tsig+"|accepted", func() string {
+				return fmt.Sprintf("variant %d: %d of %d bytes accepted without error", v, cut, len(data))
+			})
+		}
+		if e.Class != nil && e.Class(v) != "" {
+			continue
+		}
+		// damaged fields: every leaf of the JSON encoding replaced by hostile values -> an error, or an object that
+		// re-encodes consistently; never a panic
+		muts, whats, classes := jsonMutants(data)
+		limit := e.MaxMutants
+		if tier == "thorough" {
+			limit *= 8
+		}
+		if limit > 0 && len(muts) > limit {
+			perm := rnd.Sub("mut", v).Perm(len(muts))[:limit]
+			m2, w2, c2 := make([][]byte, limit), make([]string, limit), make([]string, limit)
+			for i, k := range perm {
+				m2[i], w2[i], c2[i] = muts[k], whats[k], classes[k]
+			}
+			muts, whats, classes = m2, w2, c2
+		} else if len(muts) > 0 {
+			c.Count("exhaustive_subspaces", 1)
+		}
+		for k, mut := range muts {
+			if classes[k] == "Bound:=zero-or-empty" || classes[k] == "Sigma:=zero-or-empty" {
+				// triaged value class (a Gaussian with a zero field cannot be read back), judged once, through
+				// the plain round trip of the variants that carry it
+				continue
+			}
+			csig := "C08|" + T + "." + e.unmar() + "|corrupted|" + classes[k]
+			r := moFresh(o)
+			var cerr error
+			c.Eval(1)
+			if !c.Try(csig, func() { cerr = r.UnmarshalBinary(mut) }) {
+				continue
+			}
+			if cerr != nil {
+				c.Count("corruptions_rejected", 1)
+				continue
+			}
+			var b1 []byte
+			var merr error
+			if !c.Try(csig+"|accepted-object-marshal", func() { b1, merr = r.MarshalBinary() }) || merr != nil {
+				continue
+			}
+			r2 := moFresh(o)
+			var rerr error
+			if !c.Try(csig+"|accepted-object-reread", func() { rerr = r2.UnmarshalBinary(append([]byte(nil), b1...)) }) {
+				continue
+			}
+			if rerr != nil {
+				c.Violate(csig+"|accepted-object-not-rereadable", fmt.Sprintf("variant %d, %s: %v", v, whats[k], rerr), nil)
+				continue
+			}
+			b2, _ := r2.MarshalBinary()
+			c.Check(bytes.Equal(b1, b2), csig+"|accepted-object-inconsistent", func() string { return fmt.Sprintf("variant %d, %s", v, whats[k]) })
+			c.Count("corruptions_accepted_consistent", 1)
 		}
 	}
 }
